@@ -3,6 +3,7 @@ successor machines / tabular definitions, every state replayed)."""
 from ..engine import Clause, chunks
 from ..ref import calendar as cal
 from ..ref import computus, hebrew, islamic
+from . import c01
 
 from pymeeus.Epoch import Epoch
 
@@ -203,6 +204,76 @@ def replay_g2m(case):
     return check_g2m(case["n"], case["moslem"])
 
 
+# -- thorough: independent TLA+ model of the tabular calendar, enumerated by TLC; every dumped state
+#    is replayed on the implementation (and compared with the Python reference model)
+
+TLC_WINDOWS = [1, 530, 770, 990, 1400, 2440]      # 40 years each: epoch, the three w % 1461 = 0 years,
+                                                  # the present, the end of the range
+TLC_SPAN = 39
+
+
+def hijri_tlc_states(h0, h1, n0):
+    import os
+    import re
+    import shutil
+    import subprocess
+    import tempfile
+    from .. import ROOT
+    tmp = tempfile.mkdtemp(prefix="vmc_tlc_")
+    try:
+        shutil.copy(os.path.join(ROOT, "models", "Hijri.tla"), tmp)
+        with open(os.path.join(tmp, "Hijri.cfg"), "w") as f:
+            f.write("CONSTANTS\n H0 = %d\n SPAN = %d\n N0 = %d\nSPECIFICATION Spec\nINVARIANT TypeOK\n"
+                    % (h0, h1 - h0, n0))
+        dump = os.path.join(tmp, "states")
+        r = subprocess.run(["tlc", "-workers", "1", "-noGenerateSpecTE", "-deadlock", "-metadir",
+                            os.path.join(tmp, "meta"), "-dump", dump, "Hijri"], cwd=tmp, capture_output=True,
+                           text=True, timeout=1200)
+        if "Model checking completed. No error has been found" not in r.stdout:
+            raise RuntimeError("TLC failed:\n" + r.stdout[-2000:] + r.stderr[-500:])
+        states = []
+        for blk in open(dump + ".dump").read().split("State ")[1:]:
+            states.append(dict((k, int(v)) for k, v in re.findall(r"/\\ (\w+) = (-?\d+)", blk)))
+        return states
+    finally:
+        shutil.rmtree(tmp, ignore_errors=True)
+
+
+def run_tlc(h0, ctx):
+    h1 = h0 + TLC_SPAN
+    n0 = dict(islamic.year_starts(h0, h0))[h0]
+    states = hijri_tlc_states(h0, h1, n0)
+    states.sort(key=lambda s: s["n"])
+    ref = {}
+    for (h, ns) in islamic.year_starts(h0, h1):
+        for (hh, m, d, n) in islamic.days_of_year(h, ns):
+            ref[n] = (hh, m, d)
+    prev = None
+    for s in states:
+        ctx.evals += 1
+        ctx.states += 1
+        ctx.transitions += 1
+        ctx.nt_count += 1
+        msgs = check_m2g(s["h"], s["m"], s["d"], s["n"])
+        if ref.get(s["n"]) != (s["h"], s["m"], s["d"]):
+            msgs.append(("tlc_model", "TLA+ model puts day %d at %r, Python model at %r"
+                         % (s["n"], (s["h"], s["m"], s["d"]), ref.get(s["n"]))))
+        if prev is not None and s["n"] != prev + 1:
+            msgs.append(("tlc_model", "TLC dump is not a chain at n=%d" % s["n"]))
+        prev = s["n"]
+        for site, msg in msgs:
+            ctx.viol({"h": s["h"], "m": s["m"], "d": s["d"], "n": s["n"], "civil": list(fast().date(s["n"]))},
+                     msg, site=site)
+        ctx.outcome(s["m"])
+    if len(states) != len(ref):
+        ctx.viol({"h": h0, "m": 1, "d": 1, "n": n0}, "TLC dumped %d states, the Python model has %d for %d..%d AH"
+                 % (len(states), len(ref), h0, h1), site="tlc_model")
+    ctx.traces += 1
+    ctx.count("tlc_states_dumped", len(states))
+    ctx.obs(h0, len(states))
+    ctx.sample({"tlc_window_AH": [h0, h1], "states": len(states), "first": states[0], "last": states[-1]})
+
+
 def clauses(tier):
     hs = islamic.year_starts(1, 2500)
     n_end = fast().n(3000, 12, 31)
@@ -215,4 +286,5 @@ def clauses(tier):
         Clause("moslem_to_civil", chunks(hs, 64), run_m2g, replay_m2g, floor=800000, shape="S"),
         Clause("civil_to_moslem", chunks(hs_civil, 64), run_g2m, replay_g2m, floor=800000,
                shape="S"),
-    ]
+    ] + ([Clause("tlc_cross_model", TLC_WINDOWS, run_tlc, replay_m2g, floor=1000, shape="S")]
+         if tier == "thorough" and c01.tlc_available() else [])
